@@ -248,6 +248,10 @@ pub fn pipe(rng: &mut Rng, a_to_b: SegPolicy, b_to_a: SegPolicy) -> (End, End) {
 #[derive(Clone, Debug)]
 pub enum HttpBehaviour {
     Respond { status: u16, headers: Vec<(String, String)>, body: Vec<u8>, delay_ms: u64 },
+    /// status line and headers arrive, then `prefix` of the body, then the connection is reset
+    /// (`stall` = false) or goes silent until the request's own time-out fires (`stall` = true).
+    /// The body read fails with a genuine reqwest::Error (kind Body), as it does in production.
+    BrokenBody { status: u16, prefix: Vec<u8>, stall: bool, delay_ms: u64 },
     Refused,
     Reset { delay_ms: u64 },
     Stall,
@@ -420,6 +424,25 @@ impl cascette_protocol::verif_hooks::HttpTransport for Network {
                         b = b.header(k, v);
                     }
                     let resp = b.body(body).map_err(|e| cascette_protocol::ProtocolError::Other(e.to_string()))?;
+                    Ok(reqwest::Response::from(resp))
+                }
+                HttpBehaviour::BrokenBody { status, prefix, stall, delay_ms } => {
+                    tokio::time::sleep(Duration::from_millis(delay_ms)).await;
+                    net.count(if stall { "fault:http_body_stall" } else { "fault:http_body_reset" });
+                    // reqwest applies the request's total time-out to the body too
+                    let wait = request.timeout().copied().unwrap_or(Duration::from_secs(30));
+                    let first = futures::stream::once(async move { Ok::<bytes::Bytes, io::Error>(bytes::Bytes::from(prefix)) });
+                    let then = futures::stream::once(async move {
+                        if stall {
+                            tokio::time::sleep(wait).await;
+                            Err::<bytes::Bytes, io::Error>(io::Error::new(io::ErrorKind::TimedOut, "simulated: body read timed out"))
+                        } else {
+                            tokio::time::sleep(Duration::from_millis(15)).await;
+                            Err(io::Error::new(io::ErrorKind::ConnectionReset, "simulated: connection reset while reading the body"))
+                        }
+                    });
+                    let body = reqwest::Body::wrap_stream(futures::StreamExt::chain(first, then));
+                    let resp = http::Response::builder().status(status).body(body).map_err(|e| cascette_protocol::ProtocolError::Other(e.to_string()))?;
                     Ok(reqwest::Response::from(resp))
                 }
                 HttpBehaviour::Refused => {
